@@ -14,9 +14,12 @@
    Positions are 0-based byte offsets (Location::absolute - start_index).  Lines and columns are
    functions of the offset and are not carried.
 
-   [fx : bool] selects the behaviour of the tree: [false] = the code as it is at /repo HEAD,
-   [true] = the code after /verif/fixes/C09-lexer-non-ascii.patch (restore_char sees all
-   continuation bytes; a character whose first byte was consumed is consumed completely). *)
+   Booleans select the behaviour of the tree, [false] = the code as found at /repo HEAD:
+   [fx] = after /verif/fixes/C09-lexer-non-ascii.patch (restore_char sees all continuation bytes;
+          a character whose first byte was consumed is consumed completely),
+   [sp] = after C09-int-literal-span.patch (an integer literal followed by a letter keeps its span),
+   [ob] = after C08-builtin-operator-span.patch (the span of `#Int+` covers the whole token),
+   the argument of [unescape] = after C09-unescape-invalid-escape.patch. *)
 From Coq Require Import List NArith ZArith Bool Arith.
 From GV Require Import Base.Utf8N.
 Import ListNotations.
@@ -210,7 +213,7 @@ Definition shebang_line (input : list byte) (start : nat) (s : st) : res (option
 
 (* ---- operators, identifiers ---- *)
 (* token.rs:496 *)
-Definition operator (input : list byte) (start : nat) (s : st) : res (option item * st) :=
+Definition operator (ob : bool) (input : list byte) (start : nat) (s : st) : res (option item * st) :=
   do (e, op, s1) <- take_while input is_operator_byte start s;
   let simple k := Ok (Some (ITok (TSimple k) start e), s1) in
   if list_eqb op [64]%N then simple KAt
@@ -222,8 +225,9 @@ Definition operator (input : list byte) (start : nat) (s : st) : res (option ite
   else if list_eqb op [45; 62]%N then simple KRArrow
   else if list_eqb op [35]%N then
     do (_, _, s2) <- take_while input is_ident_start start s1;
-    do (_, op2, s3) <- take_while input is_operator_byte start s2;
-    Ok (Some (ITok (TOp op2) start e), s3)
+    do (e3, op2, s3) <- take_while input is_operator_byte start s2;
+    (* the span ends after the `#` only; [ob = true]: tree after C08-builtin-operator-span.patch *)
+    Ok (Some (ITok (TOp op2) start (if ob then e3 else e)), s3)
   else Ok (Some (ITok (TOp op) start e), s1).
 
 Definition keyword (t : list byte) : option simple_tok :=
@@ -480,7 +484,7 @@ Definition int_token (t : list byte) (a b : nat) (s : st) : res (option item * s
   end.
 
 (* token.rs:655 *)
-Definition numeric_literal (fx : bool) (input : list byte) (start : nat) (s : st)
+Definition numeric_literal (fx sp : bool) (input : list byte) (start : nat) (s : st)
   : res (option item * st) :=
   do (e, int, s1) <- take_while input is_digit start s;
   match lookahead s1 with
@@ -517,9 +521,10 @@ Definition numeric_literal (fx : bool) (input : list byte) (start : nat) (s : st
       | None => Ok (Some (ITok (TByte 0) start e2), push_err start e2 ENonParseableInt s3)
       end
     else if is_ident_start b then
-      (* `Some((start, ch))` shadows `start` with the lookahead location (= e) *)
+      (* `Some((start, ch))` shadows `start` with the lookahead location (= e): the literal gets
+         the empty span (e, e).  [sp = true]: tree after C09-int-literal-span.patch *)
       do s2 <- unexpected_ident_start fx (pos s1) s1;
-      int_token int (pos s1) e s2
+      int_token int (if sp then start else pos s1) e s2
     else int_token int start e s1
   | None => int_token int start e s1
   end.
@@ -528,7 +533,7 @@ Definition numeric_literal (fx : bool) (input : list byte) (start : nat) (s : st
 Definition single (k : simple_tok) (start : nat) (s : st) : res (option item * st) :=
   Ok (Some (ITok (TSimple k) start (pos s)), s).
 
-Definition step (fx : bool) (input : list byte) (s : st) : res (option item * st) :=
+Definition step (fx sp ob : bool) (input : list byte) (s : st) : res (option item * st) :=
   match bump s with
   | None => Ok (None, s)
   | Some (start, ch, s1) =>
@@ -550,8 +555,8 @@ Definition step (fx : bool) (input : list byte) (s : st) : res (option item * st
     else if (ch =? 35) && Nat.eqb start 0%nat && test_lookahead (N.eqb 33) s1 then shebang_line input start s1
     else if (ch =? 35) && test_lookahead (N.eqb 91) s1 then single KAttributeOpen start (bump_ s1)
     else if is_ident_start ch then identifier input start s1
-    else if is_digit ch || ((ch =? 45) && test_lookahead is_digit s1) then numeric_literal fx input start s1
-    else if is_operator_byte ch then operator input start s1
+    else if is_digit ch || ((ch =? 45) && test_lookahead is_digit s1) then numeric_literal fx sp input start s1
+    else if is_operator_byte ch then operator ob input start s1
     else if is_ws_byte ch then Ok (None, s1)
     else
       do (c, s2) <- restore_and_skip fx ch s1;
@@ -560,7 +565,7 @@ Definition step (fx : bool) (input : list byte) (s : st) : res (option item * st
 
 (* All results of repeated Tokenizer::next calls up to and including the first EOF token, and the
    final state (whose [errs] are the errors recorded on the side, newest first). *)
-Fixpoint lex_all (fuel : nat) (fx : bool) (input : list byte) (s : st) (acc : list item)
+Fixpoint lex_all (fuel : nat) (fx sp ob : bool) (input : list byte) (s : st) (acc : list item)
   : res (list item * st) :=
   match fuel with
   | O => Fuel
@@ -568,13 +573,13 @@ Fixpoint lex_all (fuel : nat) (fx : bool) (input : list byte) (s : st) (acc : li
     match rest s with
     | [] => Ok (rev (ITok (TSimple KEOF) (pos s) (pos s) :: acc), s)
     | _ :: _ =>
-      do (oi, s') <- step fx input s;
-      lex_all fuel' fx input s' (match oi with Some i => i :: acc | None => acc end)
+      do (oi, s') <- step fx sp ob input s;
+      lex_all fuel' fx sp ob input s' (match oi with Some i => i :: acc | None => acc end)
     end
   end.
 
 Definition init (input : list byte) : st := mkSt 0%nat input [].
 
-Definition lex (fx : bool) (input : list byte) : res (list item * list sp_err) :=
-  do (items, s) <- lex_all (S (length input)) fx input (init input) [];
+Definition lex (fx sp ob : bool) (input : list byte) : res (list item * list sp_err) :=
+  do (items, s) <- lex_all (S (length input)) fx sp ob input (init input) [];
   Ok (items, rev (errs s)).
